@@ -19,7 +19,7 @@ P = {
  "C02": dict(level="exploration", ref="4/C02",
     technique="history monitor (per-connection callback log with inside-counter, self-describing streams / numbered datagrams compared at quiescence) + read stuck-state predicate (FIONREAD, read-event counter, CPU idle) + CPU-time spin monitor over the configuration matrix",
     text="Runs the real engine over the enumerated product transport x epoll mode x sync/async x executor and sampled poller count, read-buffer size, per-loop read limit and peer patterns, with seeded delays at the async-read hand-over, and decides delivery (exactly once, in order, right connection, datagram boundaries) at quiescence, non-delivery by a stable stuck-state and idle spinning by CPU time. Exploration: schedules and configurations are sampled.",
-    note=TB + " One known finding (half-close with unread data) is listed in known_findings.json."),
+    note=TB),
  "C03": dict(level="exploration", ref="4/C03",
     technique="history monitor over open/close notifications, dial callbacks and post-Close operation results (one logical clock); fd-reuse victim socket as kernel-level oracle; quiescence-decided completeness; seeded delay points",
     text="Creates connections by accept, AddConn and DialAsync and ends each by a seeded scenario (peer close/reset, Close, CloseWithError, 2-8 concurrent closers during traffic, deadline, overflow, Close inside OnOpen, Stop); exactly one close notification after the open one with the first cause as error, closed indication and an untouched descriptor after Close returned, and DialAsync outcomes checked against harness listeners with known fate (accepted, refused, accept-queue full, missing path).",
